@@ -167,6 +167,12 @@ def scan_clauses(toks, j, n, tl, tagline, prefix):
             j = match_close(toks, j) + 1
             continue
         if x.text == "{":
+            pv = toks[j - 1].text if j > 0 else ""
+            ppv = toks[j - 2].text if j > 1 else ""
+            if cur_kind and cs is not None and (pv in ("&&", "||", "==", "!=", "=", "+", "-", "*", "=>", "!", "&", "|") or (pv == ">" and ppv == "==")):
+                # a block expression inside a clause (`==> { let ..; .. }`), not the body
+                j = match_close(toks, j) + 1
+                continue
             if cur_kind and expect_block > 0:
                 expect_block -= 1
                 j = match_close(toks, j) + 1
@@ -444,6 +450,9 @@ def run_canary(res, toks):
     path = res.path.replace(".rs", "_canary.rs")
     open(path, "w").write("".join(parts) + _trailing(res))
     out = run_verus(path)
+    hard = [d for d in out["diags"] if d.get("level") == "error" and classify(d) is None and not d.get("message", "").startswith("aborting due to")]
+    if out["summary"] is None or hard:
+        return {"functions": len(targets), "failed_as_required": 0, "vacuous": [], "error": (hard[0]["message"] if hard else "no summary")[:200]}
     failed_fns = set()
     lines = open(path).read().split("\n")
     for d in out["diags"]:
@@ -553,6 +562,8 @@ def main():
         if r.status == "ok" and r.canary:
             canary_total += r.canary["functions"]
             vacuous += ["%s/%s" % (r.unit, v) for v in r.canary["vacuous"]]
+            if r.canary.get("error"):
+                vacuous.append("%s/<canary unit does not compile: %s>" % (r.unit, r.canary["error"]))
     rc = 0
     lines_out = []
     for f, k in known_hits:
